@@ -760,6 +760,21 @@ where
 ///
 /// [`Spur`]: crate::Spur
 /// [`RandomState`]: index.html#cargo-features
+#[cfg(lasso_verif)]
+impl<K, S> ThreadedRodeo<K, S> {
+    /// Verification hook (read-only): `(address, capacity, used)` of every storage block
+    #[doc(hidden)]
+    pub fn verif_blocks(&self) -> Vec<(usize, usize, usize)> {
+        self.arena.verif_blocks()
+    }
+
+    /// Verification hook (read-only): the value of the key counter
+    #[doc(hidden)]
+    pub fn verif_key_counter(&self) -> usize {
+        self.key.load(Ordering::SeqCst)
+    }
+}
+
 impl Default for ThreadedRodeo<Spur, RandomState> {
     #[cfg_attr(feature = "inline-more", inline)]
     fn default() -> Self {
